@@ -55,11 +55,11 @@ func main() {
 		runCase(r, w.Case)
 		r.Finish()
 	}
-	for i, n := 0, r.Pick(400, 8000); i < n; i++ {
+	ev.Parallel(r.Pick(1000, 10000), 8, func(i int) {
 		runCase(r, caseID{r.Seed*1_000_003 + int64(i)})
-	}
-	r.FloorNontrivial(int64(r.Pick(200, 4000)))
-	r.FloorCount("variants", int64(r.Pick(1500, 30000)))
+	})
+	r.FloorNontrivial(int64(r.Pick(500, 5000)))
+	r.FloorCount("variants", int64(r.Pick(4000, 40000)))
 	r.FloorCount("reopens", int64(r.Pick(300, 6000)))
 	r.FloorCount("snapshot_transfers", int64(r.Pick(300, 6000)))
 	r.Finish()
